@@ -403,6 +403,19 @@ def run(ctx):
                     own = 65536
                 jobs.append({'role': role, 'depth': depth, 'prefix': prefix + [h], 'eager': False, 'max_pdu': own})
                 stalls += 1
+            # ... and the same with a whole PDU in front of the incomplete one, both in one segment
+            for x in net_alphabet(model):
+                if x['a'] != 'pdu' or len(refpdu.enc_pdu(x['spec'])) > 4000:
+                    continue
+                _, model2 = H.predict(role, prefix + [x])
+                if not model2.transport:
+                    continue
+                for h in heads(model2):
+                    if h['cut'] < 6:
+                        continue
+                    jobs.append({'role': role, 'depth': depth - 1, 'prefix': prefix + [x, dict(h, eager=True)], 'eager': False,
+                                 'max_pdu': 65536})
+                    stalls += 1
     parallel(ctx, run_dfs, jobs)
     ctx.label('dfs-jobs', len(jobs))
     ctx.label('stall-jobs', stalls)
